@@ -947,7 +947,10 @@ class Facts:
                     elif kind == "fnptr":
                         eff[i].add("FNPTR")
                     elif kind == "virtual":
-                        eff[i].add("DYN-UNKNOWN")
+                        if e.get("method") == "drop_in_place" and "std::any::Any" in e.get("dyn", ""):
+                            eff[i].add("DROP-ANY")   # panic payloads / type-erased values: no vtable in the program
+                        else:
+                            eff[i].add("DYN-UNKNOWN")
                 else:
                     callees[i].add(to)
         changed = True
@@ -967,7 +970,9 @@ class Facts:
         eff = self.effects()
         out = set()
         for _, kind, to, e in self.inst_callees(inst, bb):
-            if to is None:
+            if to is None and kind == "virtual" and e.get("method") == "drop_in_place" and "std::any::Any" in e.get("dyn", ""):
+                out.add("DROP-ANY")
+            elif to is None:
                 out.add({"unresolved": "USER-CALLBACK", "generic": "USER-CALLBACK", "fnptr": "FNPTR",
                          "virtual": "DYN-UNKNOWN", "normalize": "USER-CALLBACK"}.get(kind, "UNKNOWN"))
             else:
@@ -1281,3 +1286,55 @@ def variant_payload_types(facts, tystr, variant):
             if v["name"] == variant:
                 return [fl["ty"] for fl in v["fields"]]
     return None
+
+
+
+def reach_variants(f, starts, blocked=(), unwind=False, init=None):
+    """like Fn.reach, but path-sensitive in the enum variant of bare locals: an assignment
+    `_l = Enum::V{..}` (or a move of such a local) records the variant, and a later
+    `switchInt(discriminant(_l))` only follows the matching edge."""
+    blocked = set(blocked)
+    seen = set()
+    out = set()
+    work = []
+    for s in starts:
+        if s not in blocked:
+            work.append((s, frozenset((init or {}).items())))
+    while work:
+        bb, st = work.pop()
+        if (bb, st) in seen:
+            continue
+        seen.add((bb, st))
+        out.add(bb)
+        d = dict(st)
+        for s in f.stmts(bb):
+            if s["s"] != "assign" or s["lhs"]["p"]:
+                continue
+            l = s["lhs"]["l"]
+            r = s["rhs"]
+            if r["rv"] == "agg" and r.get("agg") == "adt" and r.get("variant") is not None:
+                d[l] = r["variant"]
+            elif r["rv"] == "use" and op_local(r["op"]) in d:
+                d[l] = d[op_local(r["op"])]
+            else:
+                d.pop(l, None)
+        t = f.term(bb)
+        if t["t"] == "call" and not t["dest"]["p"]:
+            d.pop(t["dest"]["l"], None)
+        allowed = None
+        sw = switch_on_discr(f, bb)
+        if sw and not sw[0]["pl"]["p"] and sw[0]["pl"]["l"] in d:
+            rv, m, otherwise, rest = sw
+            v = d[sw[0]["pl"]["l"]]
+            if v in m:
+                allowed = {m[v]}
+            elif v in rest:
+                allowed = {otherwise}
+        st2 = frozenset(d.items())
+        for s in f.succs(bb, unwind):
+            if s in blocked:
+                continue
+            if allowed is not None and s not in allowed:
+                continue
+            work.append((s, st2))
+    return out
